@@ -341,6 +341,31 @@ func (r *c14Run) decodeBytes(k *c14Kind, b []byte, coqCase bool, tag string) {
 	if coqCase {
 		c.addCase(fmt.Sprintf("K%sDec %s %s", k.name, cBytes(in), c14Outcome(class, val)), fmt.Sprintf("%s Unmarshal %x", k.name, in))
 	}
+	// decoded values are independent of each other and of the input: update the decoded amount IN PLACE (as the ledger does with
+	// Value.Add), overwrite the decoded byte fields, then decode the same bytes again
+	if class == "value" {
+		if t, ok := m.(*esdt.ESDigitalToken); ok {
+			if t.Value != nil {
+				t.Value.Add(t.Value, big.NewInt(777))
+				t.Value.Neg(t.Value)
+			}
+			for i := range t.Properties {
+				t.Properties[i] ^= 0xff
+			}
+			if t.TokenMetaData != nil {
+				for i := range t.TokenMetaData.Hash {
+					t.TokenMetaData.Hash[i] ^= 0xff
+				}
+			}
+			if !bytes.Equal(in, b) {
+				c.fail("monitor", "unmarshal-aliases-input-"+k.name, fmt.Sprintf("updating the value decoded from %x in place changed the input buffer to %x", in, b), rp)
+			}
+			class5, m5, _ := c14Decode(k, nil, in)
+			if class5 != "value" || k.coq(m5) != val {
+				c.fail("monitor", "decode-not-independent-"+k.name, fmt.Sprintf("after an earlier decoded value was updated in place, decoding %x again gives %s %s instead of %s", in, class5, k.coq(m5), val), rp)
+			}
+		}
+	}
 }
 
 // merge: Unmarshal WITHOUT Reset into a receiver that already holds a value
@@ -443,6 +468,16 @@ func (r *c14Run) casterDecode(buf []byte, coqCase bool) {
 	}
 	if coqCase {
 		c.addCase(fmt.Sprintf("KCasterDec %s %s", cBytes(buf), c14Outcome(class, c14OptZ(v))), fmt.Sprintf("BigIntCaster.Unmarshal %x", buf))
+	}
+	// every decoded amount is its own number: update it in place, decode the same bytes again
+	if class == "value" && v != nil {
+		orig := new(big.Int).Set(v)
+		v.Add(v, big.NewInt(12345))
+		v.Neg(v)
+		cl3, v3, _ := c14CasterDecode(buf)
+		if cl3 != "value" || v3 == nil || v3.Cmp(orig) != 0 {
+			c.fail("monitor", "caster-decode-not-independent", fmt.Sprintf("after an earlier decoded amount was updated in place, BigIntCaster.Unmarshal(%x) = %s %v instead of %v", buf, cl3, v3, orig), map[string]string{"bytes": hex.EncodeToString(buf)})
+		}
 	}
 }
 
